@@ -52,6 +52,32 @@ def build_env(e, dirs, rot=None, origin=(12345, -6789, 4321)):
     return cc, centre
 
 
+def build_amide_like(lift_deg, rot=None, origin=(2345, -1789, 4321)):
+    """N1 - C1(=X2)(-X3): a terminal nitrogen on an sp2 carbon whose third substituent is lifted out of the plane by
+    lift_deg degrees (Arg NH1/NH2, Asn ND2, Gln NE2 and distorted variants of them)."""
+    from propka.atom import Atom
+    from propka.conformation_container import ConformationContainer
+    cc = ConformationContainer(name="1A", parameters=None, molecular_container=None)
+    R = c04.rot_fn(*rot) if rot else (lambda v: v)
+    th = math.radians(lift_deg)
+    pos = {"N1": (0, 0, 0), "C1": (1330, 0, 0), "X2": (1330 + 650, 1126, 0),
+           "X3": (1330 + int(650 * math.cos(th)), -int(1126 * math.cos(th)), int(1300 * math.sin(th)))}
+    atoms = {}
+    for k, (nm, xyz) in enumerate(pos.items()):
+        x, y, z = (o + c for o, c in zip(origin, R(xyz)))
+        el = "N" if nm in ("N1", "X2") else ("C" if nm == "C1" else "O")
+        a = Atom(pdbio.atom_line("HETATM", k + 1, el + nm[1], " ", "LIG", "L", 1, " ", x, y, z, elem=el))
+        a.conformation_container = cc
+        cc.atoms.append(a)
+        atoms[nm] = a
+    for a, b in (("N1", "C1"), ("C1", "X2"), ("C1", "X3")):
+        atoms[a].bonded_atoms.append(atoms[b])
+        atoms[b].bonded_atoms.append(atoms[a])
+    atoms["C1"].num_pi_elec_2_3_bonds = 1
+    atoms["N1"].num_pi_elec_conj_2_3_bonds = 1
+    return cc, atoms["N1"]
+
+
 def measure(centre, L):
     hs = [a for a in centre.bonded_atoms if a.element == "H"]
     return {"p": list(observe.key_of(centre)), "L": L, "h": [list(observe.key_of(h)) for h in hs],
@@ -121,6 +147,42 @@ def run(ctx):
             seen.add(key)
             ctx.violation(key, f"{inv}: {m}; hydrogens {recs[i]['h']} parent {recs[i]['p']}", {"case": m})
     ctx.sample(metas[len(metas) // 2])
+    # equivariance of the builder where the plane of an sp2 neighbour defines the hydrogens (planar and distorted)
+    eq = []
+    eqmeta = []
+    for lift in (0, 8, 15, 25, 40):
+        cc0, n0 = build_amide_like(lift)
+        with runner.quiet():
+            prot.protonate_atom(n0)
+        h0 = [observe.key_of(h) for h in n0.bonded_atoms if h.element == "H"]
+        org = (2345, -1789, 4321)
+        for rot in allrots:
+            cc1, n1 = build_amide_like(lift, rot)
+            with runner.quiet():
+                prot.protonate_atom(n1)
+            h1 = [observe.key_of(h) for h in n1.bonded_atoms if h.element == "H"]
+            R = c04.rot_fn(*rot)
+            moved = [tuple(o + c for o, c in zip(org, R(tuple(p - o for p, o in zip(h, org))))) for h in h0]
+            ctx.count()
+            ctx.nontriv(("amide-like", lift, rot))
+            eq.append({"kind": "Equiv", "hashyd": 1, "epsc": 1, "hydA": sorted([0, *m] for m in moved),
+                       "hydB": sorted([0, *h] for h in h1)})
+            eqmeta.append({"lift_deg": lift, "rotation": rot})
+    wdq = tlc.workdir("c17eq")
+    tfq = os.path.join(wdq, "eq.json")
+    json.dump(eq, open(tfq, "w"))
+    resq, violq = tlc.trace_check("Trace_Rel", ["HydEquivariant"], tfq, timeout=1800)
+    ctx.add_tlc(resq, "builder equivariance on planar and distorted sp2 neighbours x 24 rotations")
+    ctx.traces += len(eq)
+    seenq = set()
+    for inv, idxs in sorted(violq.items()):
+        for i in idxs:
+            key = f"builder:equivariance:lift{eqmeta[i]['lift_deg']}"
+            if key in seenq:
+                continue
+            seenq.add(key)
+            ctx.violation(key, f"hydrogens built after rotation {eqmeta[i]['rotation']} differ from the rotated hydrogens: "
+                               f"{eq[i]['hydB']} vs {eq[i]['hydA']}", {"case": eqmeta[i]})
     # ---- T -----------------------------------------------------------------------------
     structures = [("1HPX-protein", c04.protein_only(C.test_pdb_text("1HPX"))), ("3SGB-subset", C.test_pdb_text("3SGB-subset")),
                   ("frag-3SGB-E0+40", C.fragment("3SGB", "E", 0, 40))]
